@@ -119,6 +119,7 @@ def rule_pure(ctx):
         cur.attrs[R().last_sql] = Sym("LAST_SQL", typ="str", truthy=True)
         cur.attrs[R().table] = Obj("pending_table", kind="arrow")
         cur.attrs[R().index] = Sym("pending_index", typ="int")
+        cur.attrs[R().last_params] = Sym("LAST_PARAMS")
         sessions.append((conn, cur))
         return I.getattr(cur, "description")
 
@@ -139,6 +140,14 @@ def rule_pure(ctx):
         parses = [e for e in p.effects if e[0] == "parse"]
         okp = any("DESCRIBE" in text_of(e[2]).upper() and "LAST_SQL" in text_of(e[2]) for e in parses)
         ctx.ob("C06.c", "description describes the recorded statement (DESCRIBE <_last_sql>)", okp, loc)
+        if p.outcome == "return" and h.calls:
+            prm = h.calls[0][1]
+            okprm = isinstance(prm, Sym) and prm.tag == "LAST_PARAMS"
+            ctx.ob("C06.c", "DESCRIBE of the recorded statement is run with the recorded bound parameters", okprm, loc, tagof(prm))
+            if not okprm:
+                ctx.violation("C06.c", "cursor", "FakeSnowflakeCursor._describe_last_sql", "DESCRIBE without the recorded parameters", loc,
+                              f"description re-runs DESCRIBE <last sql> with parameters `{tagof(prm)}` instead of the ones the statement was executed "
+                              f"with: after a qmark statement with bound values description raises (prepared statement needs N parameters)")
         if p.outcome == "return" and not okp:
             ctx.violation("C06.c", "cursor", "FakeSnowflakeCursor._describe_last_sql", "DESCRIBE text",
                           loc, "description does not describe the recorded statement text")
